@@ -52,6 +52,25 @@ class C15(core.Check):
                     hist['block_boundary'] = hist.get('block_boundary', 0) + 1
                 out.append({'k': 'file', 'p': prog})
                 hist['file'] += 1
+        # long inputs (buffer boundaries of a chunked implementation: seed C15f) and inputs whose ciphertext ends in 1A, the
+        # EOF marker (seed C15d): the last byte is chosen with the implementation's own protect()
+        import importlib, io
+        protect = importlib.import_module('pcbasic.basic.converter.protect')
+        for ln in ([4097] if self.tier == 'quick' else [4095, 4096, 4097, 5000, 8191, 8193, 12289, 20000]):
+            out.append({'k': 'cipher', 'b': common.rand_bytes(rng, ln)})
+            hist['cipher_long'] = hist.get('cipher_long', 0) + 1
+        for ln in [1, 2, 26, 143, 144, 169, 286, rng.randrange(3, 400), rng.randrange(3, 400)]:
+            b = common.rand_bytes(rng, ln)
+            for last in range(256):
+                o = io.BytesIO()
+                try:
+                    protect.protect(io.BytesIO(bytes(b[:-1] + [last])), o)
+                except Exception:
+                    break
+                if o.getvalue()[-1:] == b'\x1a':
+                    out.append({'k': 'cipher', 'b': b[:-1] + [last]})
+                    hist['cipher_ends_in_eof_byte'] = hist.get('cipher_ends_in_eof_byte', 0) + 1
+                    break
         # every (position mod 143, byte) pair: 256 strings of one repeated byte, 144 long (+ dropped EOF)
         vals = range(256) if self.tier == 'thorough' else list(range(0, 256, 16)) + [255, 26, 127, 128]
         for v in vals:
